@@ -129,3 +129,5 @@ func eqStrings(a, b []string) bool {
 	}
 	return true
 }
+
+func jsonUnmarshal(b []byte, v interface{}) error { return json.Unmarshal(b, v) }
